@@ -55,6 +55,14 @@ CHECKS = {
                 "the call's bytes with a random-token marker; TLC evaluates WireOK (verdict) and the exact encoding (drift only) on every record.",
         "note": MC_NOTE,
     },
+    "C10": {
+        "engine": "Flood.tla", "level": "model_checking", "design_ref": "7 (C10)",
+        "technique": "TLA+ penalty rule over integer ticks; TLC proves non-negativity, boundedness, held-iff-over and the window bound for all short histories; closure of penalty values with every edge replayed on the real rateLimit; timed end-to-end sessions validated by TLC",
+        "text": "Flood.tla states the rule (charge 2 s + n/120 s, real-time decay floored at zero, held for its own charge iff the penalty exceeds 10 s). TLC checks the window bound of "
+                "the property on every history of up to 5 sends, enumerates the closure of reachable penalty values (2.7 k) and each of the 65 k (penalty, gap, length) edges is replayed "
+                "on the real rateLimit through the verif hooks. Timed sessions over a real connection (protection on, off) are recorded with microsecond timestamps and validated.",
+        "note": MC_NOTE + " Real-time behaviour is sampled; timing comparisons are one-sided or carry measured slack.",
+    },
     "C11": {
         "engine": "Commands.tla", "level": "model_checking", "design_ref": "7 (C11)",
         "technique": "TLA+ predicate SplitOK evaluated by TLC on pieces recovered from the wire for every splitting method (enumerated + random texts incl. bytes >= 0x80, all SplitLen classes) and on a bounded-exhaustive small-text sweep of splitMessage",
